@@ -28,6 +28,10 @@ const ModPath = "github.com/brocaar/lorawan"
 // ExpectedPackages is the hand-confirmed number of non-test packages in the module.
 const ExpectedPackages = 11
 
+// RequiredPackages are those packages, relative to the module root.
+var RequiredPackages = []string{"", "airtime", "applayer/clocksync", "applayer/firmwaremanagement", "applayer/fragmentation",
+	"applayer/multicastsetup", "backend", "backend/joinserver", "band", "gps", "sensitivity"}
+
 type Program struct {
 	Dir    string
 	Fset   *token.FileSet
@@ -92,13 +96,25 @@ func Load(dir, goarch string) (*Program, error) {
 			p.Pkgs[pk.PkgPath] = pk
 		}
 	}
-	if len(p.Pkgs) != ExpectedPackages {
+	// every package the rules are anchored in must have been loaded (a build that silently drops one would make its
+	// rules pass vacuously); packages added next to them — an internal helper package — are loaded and analysed too
+	var missing []string
+	for _, rel := range RequiredPackages {
+		path := ModPath
+		if rel != "" {
+			path += "/" + rel
+		}
+		if p.Pkgs[path] == nil {
+			missing = append(missing, path)
+		}
+	}
+	if len(missing) > 0 || len(p.Pkgs) < ExpectedPackages {
 		var names []string
 		for k := range p.Pkgs {
 			names = append(names, k)
 		}
 		sort.Strings(names)
-		return nil, fmt.Errorf("expected %d packages under %s, loaded %d: %v", ExpectedPackages, ModPath, len(p.Pkgs), names)
+		return nil, fmt.Errorf("expected the %d packages of %s, missing %v; loaded %d: %v", ExpectedPackages, ModPath, missing, len(p.Pkgs), names)
 	}
 	return p, nil
 }
